@@ -282,6 +282,8 @@ def get_arg_ctx_ast(
             # Cannot deal with it for the time being
             return None
 
+    # The keyword of a '**mapping' argument is None in the syntax tree
+    has_star_kwargs = any(k is None for k in kwargs)
     for (idx, (n, p_)) in enumerate(arg_sig.parameters.items()):
         p: inspect.Parameter = p_
         # _logger.debug(f"get_arg_ctx: {f}: idx={idx} n={n} p={p}")
@@ -304,6 +306,9 @@ def get_arg_ctx_ast(
         else:
             if n in kwargs:
                 h = process_arg(kwargs[n])
+            elif has_star_kwargs:
+                # f(1, **options): this parameter may be given at run time, its default cannot be assumed
+                h = None
             elif p.default != Parameter.empty:
                 # Argument is not provided but it has a default value
                 # Use the default argument as an input
